@@ -52,9 +52,38 @@ func (r *race) String() string {
 	return fmt.Sprintf("RACED-BY{before CA/Signer call %d: %s %s; %s}", r.K, r.Rot, who, r.Split)
 }
 
+// fault is one injected failure of a call the endorse run makes on its CertificateAuthority / Signer.
+type fault struct {
+	K      int  `json:"k"`                // the K-th call fails
+	After  bool `json:"after,omitempty"`  // the real call is made first and its result dropped (error after) instead of not made at all (error before)
+	Sticky bool `json:"sticky,omitempty"` // every later call of the same method fails too (a lasting outage) instead of this one only (a transient one)
+	hit    bool
+	at     string
+}
+
+func (f *fault) String() string {
+	when, how := "before the real call", "once"
+	if f.After {
+		when = "after the real call, result dropped"
+	}
+	if f.Sticky {
+		how = "and every later call of that method"
+	}
+	return fmt.Sprintf("FAULT{CA/Signer call %d fails %s, %s}", f.K, how, when)
+}
+
+var errInjected = fmt.Errorf("verif: injected fault: the call failed")
+
+const (
+	noFault = iota
+	failBefore
+	failAfter
+)
+
 type raceRun struct {
 	m      *model
-	spec   *race
+	spec   *race         // nil: no rotation is interleaved
+	fault  *fault        // nil: no call fails
 	inner  *keys.Context // the endorse run's own components, without the doubles
 	calls  []string
 	inRot  bool
@@ -66,17 +95,42 @@ type raceRun struct {
 	prior  map[string][]byte // what the output paths held before the command
 }
 
-// point is one call of the endorse run on its CertificateAuthority or Signer.
-func (rr *raceRun) point(name string) {
+// point is one call of the endorse run on its CertificateAuthority or Signer; the answer tells the
+// double whether (and on which side of the real call) this call is to fail.
+func (rr *raceRun) point(name string) int {
 	if rr.inRot {
-		return
+		return noFault
 	}
 	rr.calls = append(rr.calls, name)
-	if !rr.fired && len(rr.calls) == rr.spec.K {
+	if rr.spec != nil && !rr.fired && len(rr.calls) == rr.spec.K {
 		rr.fired, rr.at = true, name
 		rr.spec.fired = true
 		rr.rotate()
 	}
+	if f := rr.fault; f != nil && (len(rr.calls) == f.K || f.hit && f.Sticky && f.at == name) {
+		f.hit = true
+		if len(rr.calls) == f.K {
+			f.at = name
+		}
+		if f.After {
+			return failAfter
+		}
+		return failBefore
+	}
+	return noFault
+}
+
+// failed applies the verdict of point to the outcome of the real call.
+func failed[T any](verdict int, call func() (T, error)) (T, error) {
+	var zero T
+	if verdict == failBefore {
+		return zero, errInjected
+	}
+	out, err := call()
+	if verdict == failAfter {
+		return zero, errInjected
+	}
+	return out, err
 }
 
 type raceCA struct {
@@ -85,23 +139,19 @@ type raceCA struct {
 }
 
 func (c *raceCA) Certificate(ctx context.Context, kv string) ([]byte, error) {
-	c.rr.point("CA.Certificate")
-	return c.CertificateAuthority.Certificate(ctx, kv)
+	return failed(c.rr.point("CA.Certificate"), func() ([]byte, error) { return c.CertificateAuthority.Certificate(ctx, kv) })
 }
 
 func (c *raceCA) CABundle(ctx context.Context, kv string) ([]byte, error) {
-	c.rr.point("CA.CABundle")
-	return c.CertificateAuthority.CABundle(ctx, kv)
+	return failed(c.rr.point("CA.CABundle"), func() ([]byte, error) { return c.CertificateAuthority.CABundle(ctx, kv) })
 }
 
 func (c *raceCA) PrimaryRootKeyVersion(ctx context.Context) (string, error) {
-	c.rr.point("CA.PrimaryRootKeyVersion")
-	return c.CertificateAuthority.PrimaryRootKeyVersion(ctx)
+	return failed(c.rr.point("CA.PrimaryRootKeyVersion"), func() (string, error) { return c.CertificateAuthority.PrimaryRootKeyVersion(ctx) })
 }
 
 func (c *raceCA) PrimarySigningKeyVersion(ctx context.Context) (string, error) {
-	c.rr.point("CA.PrimarySigningKeyVersion")
-	return c.CertificateAuthority.PrimarySigningKeyVersion(ctx)
+	return failed(c.rr.point("CA.PrimarySigningKeyVersion"), func() (string, error) { return c.CertificateAuthority.PrimarySigningKeyVersion(ctx) })
 }
 
 type raceSigner struct {
@@ -110,13 +160,11 @@ type raceSigner struct {
 }
 
 func (s *raceSigner) Sign(ctx context.Context, keyName string, d styp.Digest, opts crypto.SignerOpts) ([]byte, error) {
-	s.rr.point("Signer.Sign")
-	return s.inner.Sign(ctx, keyName, d, opts)
+	return failed(s.rr.point("Signer.Sign"), func() ([]byte, error) { return s.inner.Sign(ctx, keyName, d, opts) })
 }
 
 func (s *raceSigner) PublicKey(ctx context.Context, keyName string) ([]byte, error) {
-	s.rr.point("Signer.PublicKey")
-	return s.inner.PublicKey(ctx, keyName)
+	return failed(s.rr.point("Signer.PublicKey"), func() ([]byte, error) { return s.inner.PublicKey(ctx, keyName) })
 }
 
 // holdDestroy is the rotation's key manager when the rotation is overtaken before its last act.
@@ -165,7 +213,7 @@ func (rr *raceRun) rotate() {
 // armRace installs the doubles for the next command of the world.
 func (m *model) armRace(a action) *raceRun {
 	w := m.w
-	if a.Race.Own && m.rotFailed && w.Kind == "disk" {
+	if a.Race != nil && a.Race.Own && m.rotFailed && w.Kind == "disk" {
 		// Found on the unchanged tree (reported): a rotation that is refused after its first step leaves
 		// a key version without a certificate in the key directory, and the next rotation gives its new
 		// key the same version name. A command of the file key manager (testing/nonprod/localkm) that
@@ -176,7 +224,7 @@ func (m *model) armRace(a action) *raceRun {
 		a.Race.Own = false
 		m.hist[len(m.hist)-1] = a.String()
 	}
-	rr := &raceRun{m: m, spec: a.Race, prior: map[string][]byte{}}
+	rr := &raceRun{m: m, spec: a.Race, fault: a.Fault, prior: map[string][]byte{}}
 	for _, p := range w.outPaths(a.Req, w.nextImageName()) {
 		if b, err := os.ReadFile(p); err == nil {
 			rr.prior[p] = b
@@ -205,7 +253,7 @@ func (m *model) settleRace(t ev.TB, a action, rr *raceRun, paths []string, refus
 			m.inconclusive("race", "held destroy of the previous key version failed", "%s: %v", a.Race, err)
 		}
 	}
-	if !rr.fired {
+	if rr.spec == nil || !rr.fired {
 		return false
 	}
 	if rr.rotPan != nil {
@@ -302,3 +350,51 @@ func genRace(t *rapid.T, m *model, lastCN *string) *race {
 }
 
 const raceRule = "schedule class of 'verify': in a share of the histories of TestHistories (about one endorse command in four, every world and driver) the endorse command is RACED by a key rotation. The CertificateAuthority and Signer of the command's keys.Context (library drivers: the context handed to endorse.VirtualFirmware; cmd.MakeApp driver: a component composed after the key manager and the authority) are doubles that count the calls the run makes on them (PrimarySigningKeyVersion, Certificate, CABundle, PrimaryRootKeyVersion, Sign, PublicKey); right before call k (drawn 1..5) one rotate.Key runs synchronously - on the run's own component instances (one process) or, for the drivers with a command of its own per step, as a separate command with fresh instances / a fresh command tree over the same persistent state (drawn) - then the call goes on. Split point of the rotation drawn from {it completes; its DestroyKeyVersion of the previous key is held back until the endorse run has ended = the run overtakes a rotation that has already made the new key primary}. Nothing is concurrent: the schedule is a function of the draws. The interleaved rotation has a drawn common name, the default next or a fresh override serial (never the name of an earlier certificate: with --overwrite the storage-backed authority rewrites that certificate object in place while the overtaken run may still hold the old key version, a combination of two unusual things that is kept out by construction), a drawn timestamp kind, no --overwrite. Oracle: unchanged - every file the command wrote is judged with all clauses of 'verify' at both end points and an interior time of ITS window (also a file that appeared although the command reported an error), and every earlier file again after the rotation; a refused run (e.g. its key version was destroyed under it) or a refused rotation is counted, the history goes on. non-trivial = the rotation was performed at a call the run reached and an endorsement was written; distinct = (world/driver, call, split, instances, outcome incl. which primary's certificate is embedded, request shape)"
+
+// recordFault accounts for one endorse command with an injected failing call.
+func (m *model) recordFault(a action, rr *raceRun, refused bool, written int) {
+	f := a.Fault
+	side, how := "error before the real call", "once"
+	if f.After {
+		side = "error after the real call"
+	}
+	if f.Sticky {
+		how = "lasting"
+	}
+	at, outcome := "beyond the run's last CA/Signer call (nothing failed)", "nothing failed"
+	if f.hit {
+		at = strconv.Itoa(f.K) + " = " + f.at
+		switch {
+		case refused && written == 0:
+			outcome = "run refused, nothing written"
+		case refused:
+			outcome = "run refused, yet a file was written (judged)"
+		default:
+			outcome = "run reported success (a retry, or the failure was absorbed): what it wrote is judged"
+		}
+	}
+	ev.Class("fault", "failing call "+at)
+	ev.Class("fault", side+", "+how)
+	ev.Class("fault", "outcome: "+outcome)
+	if f.hit {
+		ev.Class("fault", f.at+": "+side+" -> "+outcome)
+	}
+	if a.Race != nil {
+		ev.Class("fault", "the command is also raced by a rotation")
+	}
+	hist := m.history()
+	ev.Case("fault", f.hit, fmt.Sprintf("%s|%s|%s|%s|%s|%v|%s", m.w.mode(), at, side, how, outcome, a.Race != nil, reqClass(a.Req)), m.w.mode()+" / "+side, func() any {
+		return map[string]any{"history": hist, "calls": rr.calls, "outcome": outcome}
+	})
+}
+
+// genFault draws the failing call of one endorse command.
+func genFault(t *rapid.T) *fault {
+	return &fault{
+		K:      rapid.SampledFrom([]int{1, 2, 2, 3, 3, 4, 4, 5}).Draw(t, "faultCall"),
+		After:  rapid.Bool().Draw(t, "faultAfter"),
+		Sticky: rapid.IntRange(0, 2).Draw(t, "faultSticky") == 0,
+	}
+}
+
+const faultRule = "fault class of 'verify': in a share of the histories of TestHistories (about one endorse command in six, every world and driver, independently of 'race' - a command may be both raced and faulted) ONE call the endorse command makes on its CertificateAuthority / Signer fails. The doubles of 'race' count the calls (PrimarySigningKeyVersion, Certificate, CABundle, PrimaryRootKeyVersion, Sign, PublicKey); call k (drawn 1..5) returns an error and the zero value - either WITHOUT the real call being made (error before: the read never reached the authority / key service) or AFTER it was made with its result dropped (error after: the answer was lost) - this call only (transient) or this call and every later call of the same method (lasting outage), all drawn. The underlying authority, key manager and storage are untouched, so the history goes on on sound state. Oracle: unchanged - the statement is about what the pipeline WRITES: a run that refuses wrote nothing and is counted; every file that exists afterwards and differs from what the path held before the command - whether the command reported success or an error - is judged with all clauses of 'verify' (it must parse, carry a certificate, verify under the root inside its window, pass the independent RSA-PSS check, hold the signed bytes ...). non-trivial = the failing call was reached; distinct = (world/driver, call, side, transient/lasting, outcome, raced too, request shape)"
